@@ -8,6 +8,7 @@ import (
 	"crypto/sha256"
 	"encoding/binary"
 	"fmt"
+	"strings"
 
 	"github.com/ipfs/go-cid"
 	"github.com/ipld/go-ipld-prime/codec/dagcbor"
@@ -27,11 +28,12 @@ import (
 )
 
 type epSpec struct {
-	Named  int `json:"named"`  // pool index of the identity the entry names
-	Sealer int `json:"sealer"` // pool index of the key that seals it; -1 = what the library does (the named identity's key, the ad signer's for the main provider's entry)
-	NAddrs int `json:"naddrs"`
-	MdLen  int `json:"mdlen"`
-	Spell  int `json:"spell,omitempty"` // how the ID string is spelled (see idString); the main provider's entry uses the provider's
+	Named  int  `json:"named"`  // pool index of the identity the entry names
+	Sealer int  `json:"sealer"` // pool index of the key that seals it; -1 = what the library does (the named identity's key, the ad signer's for the main provider's entry)
+	NAddrs int  `json:"naddrs"`
+	MdLen  int  `json:"mdlen"`
+	LikeAd bool `json:"like_ad,omitempty"` // the entry carries the advertisement's own addresses and metadata
+	Spell  int  `json:"spell,omitempty"`   // how the ID string is spelled (see idString); the main provider's entry uses the provider's
 }
 
 type mutation struct {
@@ -150,11 +152,16 @@ func unsignedAd(sc *scenario) *schema.Advertisement {
 	if sc.Ext {
 		x := &schema.ExtendedProvider{Override: sc.Override, Providers: []schema.Provider{}}
 		for _, e := range sc.Eps {
-			x.Providers = append(x.Providers, schema.Provider{
+			p := schema.Provider{
 				ID:        sc.epStr(e),
 				Addresses: mkAddrs(r, e.NAddrs),
 				Metadata:  r.Bytes(e.MdLen),
-			})
+			}
+			if e.LikeAd {
+				p.Addresses = append([]string{}, ad.Addresses...)
+				p.Metadata = append([]byte{}, ad.Metadata...)
+			}
+			x.Providers = append(x.Providers, p)
 		}
 		ad.ExtendedProvider = x
 	}
@@ -551,6 +558,44 @@ func applyMutation(sc *scenario, ad *schema.Advertisement) bool {
 			p.Metadata = flipBytes(p.Metadata, m.Index)
 		} else {
 			p.Metadata = append(append([]byte{}, p.Metadata...), 7)
+		}
+	// ---- an entry's value cleared, or replaced by the advertisement's own (a "the entry may
+	// omit what the advertisement says" shortcut would make these invisible)
+	case "ep-clear-md", "ep-clear-addrs", "ep-copy-md", "ep-copy-addrs":
+		if !epOK {
+			return false
+		}
+		p := &ad.ExtendedProvider.Providers[m.Ep]
+		join := func(l []string) string { return strings.Join(l, "") }
+		switch m.Kind {
+		case "ep-clear-md":
+			if len(p.Metadata) == 0 {
+				return false
+			}
+			if m.Index%2 == 0 {
+				p.Metadata = nil
+			} else {
+				p.Metadata = []byte{}
+			}
+		case "ep-clear-addrs":
+			if join(p.Addresses) == "" {
+				return false
+			}
+			if m.Index%2 == 0 {
+				p.Addresses = nil
+			} else {
+				p.Addresses = []string{}
+			}
+		case "ep-copy-md":
+			if bytes.Equal(p.Metadata, ad.Metadata) {
+				return false
+			}
+			p.Metadata = append([]byte{}, ad.Metadata...)
+		case "ep-copy-addrs":
+			if join(p.Addresses) == join(ad.Addresses) {
+				return false
+			}
+			p.Addresses = append([]string{}, ad.Addresses...)
 		}
 	// ---- structure
 	case "ep-attach":
